@@ -20,6 +20,7 @@ CONSTANTS
     Devs,       \* onboarded devices: voucher with one entry in the owner store
     Reuse,      \* BOOLEAN: the owner offers credential reuse
     NMods,      \* number of owner service-info modules (each completes in one round)
+    Policy,     \* rendezvous TTL policy: "none" (requested ttl is used), "fixed" (600 s), "zero" (reject)
     Forge64,    \* forged TO2.ProveDevice classes (C02)
     Forge22,    \* forged TO0.OwnerSign classes (C06)
     Forge32,    \* forged TO1.ProveToRV classes (C07)
@@ -49,6 +50,8 @@ NoSess == [proto |-> "none", live |-> FALSE, dev |-> "none", g |-> "orig", st |-
            cnext |-> 0, sent |-> {}, prog |-> 0, proven |-> FALSE]
 
 AllDone == NMods + 1      \* value of `mod` once every owner module completed
+ReqTTL == 3600            \* what the honest owner asks for
+TTL == IF Policy = "fixed" THEN 600 ELSE ReqTTL   \* accepted time-to-live: stored expiry and reply
 
 Init ==
     /\ sess = [s \in Slots |-> NoSess]
@@ -112,8 +115,8 @@ Respond(s, r, t, b) ==
             THEN ok(13, r.st, r.mod, <<[k |-> "AddVoucher", s |-> s]>>, rv, ov, nvouch + 1)
             ELSE fail
       [] t = 22 ->
-            IF b = "honest" /\ "nonce0" \in r.st /\ d \in Devs /\ r.g = "orig"
-            THEN ok(23, r.st, r.mod, <<[k |-> "SetRVBlob", s |-> s, d |-> d]>>, [rv EXCEPT ![d] = "reg"], ov, nvouch)
+            IF b = "honest" /\ "nonce0" \in r.st /\ d \in Devs /\ r.g = "orig" /\ Policy # "zero"
+            THEN ok(23, r.st, r.mod, <<[k |-> "SetRVBlob", s |-> s, d |-> d, ttl |-> TTL]>>, [rv EXCEPT ![d] = "reg"], ov, nvouch)
             ELSE fail
       [] t = 32 ->
             IF b = "honest" /\ "nonce1" \in r.st /\ d \in Devs /\ r.g = "orig" /\ rv[d] = "reg"
